@@ -392,8 +392,14 @@ func (p *ReverseProxy) clusterInvoke(srv *BfeServer, cluster *bfe_cluster.BfeClu
 			allowRetry = checkAllowRetry(cluster.RetryLevel(), outreq)
 
 			// if error is caused by backend server
-			rerr := err.(bfe_http.WriteRequestError)
-			if !rerr.CheckTargetError(request.RemoteAddr) {
+			clientErr := false
+			switch rerr := err.(type) {
+			case bfe_http.WriteRequestError:
+				clientErr = rerr.CheckTargetError(request.RemoteAddr)
+			case bfe_fcgi.WriteRequestError:
+				clientErr = rerr.CheckTargetError(request.RemoteAddr)
+			}
+			if !clientErr {
 				backend.OnFail(cluster.Name)
 			}
 
